@@ -26,7 +26,7 @@ RULE = ('Tables over the configured output list restricted to what can be an inp
         'column, a supplied carrier is a valid PDS string; generated output_data_elements lists as well as the packaged one; '
         '{latin_1, cp500, cp037} x blocked/unblocked; function entry points and cli_run of both tools on real files (plus mideu extract as a second extractor for latin_1 / cp500 files). Oracle: same '
         'number of rows in the same order; every non-empty input cell comes back equal (text exactly, numbers numerically, '
-        'date-times after parsing both sides). Non-trivial = >= 2 rows or a cell with a CSV metacharacter; distinct by digest.')
+        'date-times after parsing both sides). Tables of >= 1100 rows (generated rows repeated) go through the same comparison. Non-trivial = >= 2 rows or a cell with a CSV metacharacter; distinct by digest.')
 ASSUMPTIONS = ['an empty input cell means "absent"; the output may hold a derived value there (e.g. DE48 built from PDS columns)',
                'cells contain no control characters (CSV is a text format; a bare CR cannot survive lineterminator="\\n")',
                'python-dateutil is installed, so date cells go through dateutil.parser.parse',
@@ -233,11 +233,20 @@ def check(codec, config, in_cols, rows, blocked, scratch, cli):
     return None
 
 
-def hyp_tables(ctx, n, cli):
+def hyp_tables(ctx, n, cli, many=False):
     scratch = tempfile.mkdtemp(prefix='cardutil-verif-c20-')
     try:
         def body(v):
             codec, config, in_cols, rows, blocked = v
+            if many:
+                # a table of >= 1100 rows (the generated rows repeated); `repeat` keeps the replay small
+                repeat = -(-1100 // len(rows))
+                ctx.case(key=harness.digest((codec, config is not None, in_cols, rows, blocked, repeat)), nontrivial=True,
+                         labels=['table-many-rows', 'blocked' if blocked else 'vbs'])
+                res = check(codec, config, in_cols, rows * repeat, blocked, scratch, cli)
+                if res:
+                    ctx.fail(res[0], {'codec': codec, 'config': config, 'in_cols': in_cols, 'rows': rows, 'blocked': blocked, 'cli': cli, 'repeat': repeat}, res[1])
+                return
             meta = any(any(ch in META for ch in x) for r in rows for x in r.values())
             ctx.case(key=harness.digest((codec, config is not None, in_cols, rows, blocked)), nontrivial=len(rows) >= 2 or meta,
                      labels=['table', 'blocked' if blocked else 'vbs', 'codec:' + codec, 'columns:custom' if config else 'columns:packaged',
@@ -248,7 +257,7 @@ def hyp_tables(ctx, n, cli):
             res = check(codec, config, in_cols, rows, blocked, scratch, cli)
             if res:
                 ctx.fail(res[0], {'codec': codec, 'config': config, 'in_cols': in_cols, 'rows': rows, 'blocked': blocked, 'cli': cli}, res[1])
-        harness.drive(ctx, tables(ctx.tier), body, n, salt='tables-cli' if cli else 'tables')
+        harness.drive(ctx, tables(ctx.tier), body, n, salt=('tables-cli' if cli else 'tables') + ('-many' if many else ''))
     finally:
         shutil.rmtree(scratch, ignore_errors=True)
 
@@ -260,12 +269,14 @@ def tasks(tier, seed):
         t.append(('hyp_tables', dict(n=60 if not full else 500, cli=False)))
     for i in range(2 if not full else 4):
         t.append(('hyp_tables', dict(n=30 if not full else 250, cli=True)))
+    t.append(('hyp_tables', dict(n=2 if not full else 12, cli=False, many=True)))
+    t.append(('hyp_tables', dict(n=2 if not full else 12, cli=True, many=True)))
     return t
 
 
 def replay(case):
     scratch = tempfile.mkdtemp(prefix='cardutil-verif-c20-')
     try:
-        return check(case['codec'], case['config'], list(case['in_cols']), list(case['rows']), case['blocked'], scratch, case['cli'])
+        return check(case['codec'], case['config'], list(case['in_cols']), list(case['rows']) * case.get('repeat', 1), case['blocked'], scratch, case['cli'])
     finally:
         shutil.rmtree(scratch, ignore_errors=True)
